@@ -75,6 +75,6 @@ open_(['C08'], 'verdict.VANISHED:{}', 'simplifier "solves" an infeasible LP outr
 open_(['C08'], 'reduced-class:{}', 'reduced LP is unbounded/infeasible (even relaxed by 1e-9) although the original has a certified finite optimum',
       repro='findings/C08_reduced_unbounded.lp')
 # --- file I/O
-open_(['C14', 'C12', 'C09'], r'(exception\.[A-Za-z]+\.XMPSWR02.*|leak:SoPlexBase::(writeStateReal|writeFileReal|writeFile).*)', 'the MPS writer throws SPxInternalCodeException("XMPSWR02 This should never happen") for a free row (lhs=-inf, rhs=+inf) instead of writing it or returning false; the unscaled LP copy made by writeFile() leaks on that path', regex=True)
+open_(['C14', 'C12', 'C09'], r'(exception\.[A-Za-z]+\.XMPSWR02.*|leak:SoPlexBase::wri.*)', 'the MPS writer throws SPxInternalCodeException("XMPSWR02 This should never happen") for a free row (lhs=-inf, rhs=+inf) instead of writing it or returning false; the unscaled LP copy made by writeFile() leaks on that path', regex=True)
 json.dump(dict(findings=F), open(os.path.join(V, 'known_findings.json'), 'w'), indent=1)
 print('wrote', len(F), 'entries')
